@@ -22,6 +22,12 @@ CHECKS = {
                 text='In the specification the embedder-owned string-keyed cache is immutable configuration (action property CfgFrozen over every transition of the cache family); conformance binds that to the code: every replayed behaviour and every step of every recorded run compares all string keys by value and type.',
                 ref='5 C08'),
 }
+CHECKS['C09'] = dict(engine='TapeVM', tech='TLA+ spec (TapeVM) with TLC: exhaustive context x probe x configuration family with ConfigUniform / InvEmbedderFlags / FlagsOnlyByFlagOps / PluginOnce + replay with real flags, counting plugins and contracts, and TLC trace validation of per-frame configuration',
+                text='Every nesting of the block constructs (depth bound) around 17 probe sequences, under the embedder settings that switch each probed behaviour, is explored by TLC with the uniformity invariants and replayed through run_script with real additional_flags / plugins / contracts (cache effects, plugin call counts, outcomes); recorded runs under random configurations are validated per sub-tape entry (visible plugins / contracts, effective flag table, call count).',
+                ref='5 C09')
+CHECKS['C20'] = dict(engine='TapeVM', tech='TLA+ specs (TapeVM NopExact family; SoftFork product machine) with TLC + replay with tools.add_soft_fork installed / not installed + TLC trace validation',
+                text='NopExact is checked on all 164 codes x 256 count bytes x 4 stack depths; SoftFork.tla runs a forked and an unforked VM in lockstep over all small programs x fork predicates x codes and checks Simulation / ForkImpliesOld; every behaviour of both models is replayed in the real VM (with and without the fork installed).',
+                ref='5 C20')
 NOT_YET = {}
 
 props = [json.loads(l) for l in open(os.path.join(ROOT, 'properties.jsonl'))]
